@@ -158,6 +158,17 @@ theorem load_ok_resolves_all_partial (w : World) (hT : TextIsGlobal w) (hC : Cop
     obtain ⟨f, hf'⟩ := load_ok_resolves_partial w hT hC fuel root s h hf o v (get_mem s o v hg)
     exact ⟨v, f, rfl, hf'⟩
 
+/-- (3) at the level of a whole load: when the document loads (clean run, no foreign evaluation) there is no reference
+in the loaded graph whose target does not exist, is of the wrong kind, or closes a pure reference cycle — such a
+reference makes loading fail. -/
+theorem load_ok_no_dangling_partial (w : World) (hT : TextIsGlobal w) (hC : CopyOK w) (fuel : Nat) (root : Loc) (s : St)
+    (h : load w fuel root = .ok s) (hf : s.foreign = false) (hc : Clean s) :
+    ¬ ∃ o n t, Reach w s root o ∧ w.node o = some n ∧ n.ref = some t ∧ n.orig = none ∧ ∀ f, designates w f o = none := by
+  rintro ⟨o, n, t, hreach, hn, hr, ho, hnone⟩
+  obtain ⟨v, f, _, hd⟩ := load_ok_resolves_all_partial w hT hC fuel root s h hf hc o n t hreach hn hr ho
+  rw [hnone f] at hd
+  cases hd
+
 /-! ### (T) the ten resolvers have the skeleton and the child calls the model assumes
 
 `Gen.resolverSkeleton` is regenerated from openapi3/loader.go on every run. -/
@@ -347,6 +358,12 @@ def wCycle : World where
 example : (match load wCycle 20 0 with
     | .ok s => (!s.foreign) && s.get 0 == some 1 && s.get 2 == some 3 && s.get 4 == some 1
     | _ => false) = true := by decide
+
+/-- … and it satisfies the hypotheses of the partial theorems (`s.foreign = false` and `Clean s`: the two examples around) -/
+example : TextIsGlobal wCycle ∧ CopyOK wCycle := by
+  refine ⟨fun _ _ _ _ _ _ _ _ _ _ => rfl, ?_⟩
+  intro c n r hn ho
+  rcases c with _ | _ | _ | _ | _ | c <;> simp [World.node, wCycle] at hn <;> subst hn <;> simp at ho
 
 /-- the hypotheses of `load_terminates` hold of it (rank 1 for the two values with a child), the bound is 6 -/
 example : Ranked wCycle (fun o => if o = 1 ∨ o = 3 then 1 else 0) 1 ∧ TextsIn wCycle [0, 1] ∧
